@@ -9,6 +9,7 @@ import (
 	"os"
 	"strconv"
 	"strings"
+	"syscall"
 	"time"
 
 	"deps.dev/util/resolve/npm"
@@ -25,13 +26,21 @@ const rule = "streams: (1) known-finding witnesses and corpus (npm/testdata univ
 	"mixed-case names; cycles and version conflicts arise from uniform target choice), one third with KnownAs aliases (alias names " +
 	"colliding with package names included), one eighth with optional peer/bundle-scoped requirements; (5) the same plus bundled " +
 	"(derived) packages: bundle content two levels deep, copies missing from the registry, copies installed under another name, " +
-	"requirements the bundled copy does or does not satisfy. Quick tier: 12 random roots per universe of streams 4-5; thorough: every " +
+	"requirements the bundled copy does or does not satisfy; (6) conflict cycles: small alias-free universes of (mostly exact) pins: the " +
+	"template cycle p0@v->p1@v->...->p0@other-v with self-requirements (2-4 packages, randomly damaged) and dense random pins " +
+	"(3-4 packages x 2-3 versions), every version as root - some of these resolutions do not terminate (F-C06-conflict-cycle). Quick tier: 12 random roots per universe of streams 4-5; thorough: every " +
 	"version. One `classify` op per universe evaluates the theorems' hypotheses on both sides. A case is distinct by its op line; " +
 	"non-trivial = resolution returned a graph with at least one edge, counted by distinct result line. Universes satisfy U1-U3. " +
-	"The op line carries the model's fuel (queue pops): 2+|edges| of Go's own graph when Go finishes, 80 when Go hits its 1 s deadline."
+	"The op line carries the model's fuel (queue pops): 2+|edges| of Go's own graph when Go finishes, 80 when Go is cut off after 0.3 s of CPU time."
 
-// deadline of one resolution; a hit is the result `timeout`.
-const deadline = 1 * time.Second
+// Deadline of one resolution; a hit is the result `timeout`. The budget is CPU time of
+// this process (the harness runs one resolution at a time), not wall-clock time: a machine
+// that stalls cannot turn a finishing resolution (microseconds of CPU) into `timeout`, and a
+// genuinely non-terminating one is cut off after cpuBudget of work instead of a long wall
+// wait. wallCap bounds the wait if the process gets no CPU at all.
+var cpuBudget = 300 * time.Millisecond
+
+const wallCap = 20 * time.Second
 
 // Fuel. The Lean model of the main loop is fuel-bounded (one unit per queue pop)
 // and the op line carries the fuel: a run pops at most 1 + |edges| times (every
@@ -83,22 +92,44 @@ func parseRoot(t *universe.Table, f string) (string, string, bool) {
 	return n, v, ok1 && ok2
 }
 
-// resolveOn runs the resolver under the deadline; a run that hits it is repeated once
-// with a much longer one, so that a machine stalled for a second cannot turn a finishing
-// resolution into `timeout` (a genuinely non-terminating one costs 1 s + 5 s).
-func resolveOn(t *universe.Table, u *universe.NpmUniverse, rn, rv string) string {
-	res := resolveWithin(t, u, rn, rv, deadline)
-	if res == "timeout" {
-		res = resolveWithin(t, u, rn, rv, 5*deadline)
+func cpuTime() time.Duration {
+	var ru syscall.Rusage
+	if err := syscall.Getrusage(syscall.RUSAGE_SELF, &ru); err != nil {
+		return 0
 	}
-	return res
+	return time.Duration(ru.Utime.Nano() + ru.Stime.Nano())
 }
 
-func resolveWithin(t *universe.Table, u *universe.NpmUniverse, rn, rv string, deadline time.Duration) string {
+// resolveOn runs the resolver under the CPU budget.
+func resolveOn(t *universe.Table, u *universe.NpmUniverse, rn, rv string) string {
+	return resolveWithin(t, u, rn, rv, cpuBudget, wallCap)
+}
+
+// resolveWithin cancels the resolution when the process has used `cpu` of CPU time since the
+// call started, or after `wall`.
+func resolveWithin(t *universe.Table, u *universe.NpmUniverse, rn, rv string, cpu, wall time.Duration) string {
 	lc := u.Client()
 	var tree []npm.VerifTreeEntry
-	ctx, cancel := context.WithTimeout(context.Background(), deadline)
+	ctx, cancel := context.WithTimeout(context.Background(), wall)
 	defer cancel()
+	done := make(chan struct{})
+	defer close(done)
+	start := cpuTime()
+	go func() {
+		tick := time.NewTicker(10 * time.Millisecond)
+		defer tick.Stop()
+		for {
+			select {
+			case <-done:
+				return
+			case <-tick.C:
+				if cpuTime()-start >= cpu {
+					cancel()
+					return
+				}
+			}
+		}
+	}()
 	ctx = npm.VerifWithTree(ctx, func(es []npm.VerifTreeEntry) { tree = es })
 	g, err := npm.NewResolver(lc).Resolve(ctx, universe.NpmVK(rn, rv))
 	if err != nil {
